@@ -20,7 +20,7 @@ PROP = dict(
 )
 
 CLAIM = dict(
-    text="Lean theorems: the three flattening functions (stripLineBreaks, stripLineBreaksSvg, the return-site line-feed flattening) never output LF for any input; the output of the payload flattening is, for every input, the in-order concatenation of the input's lines with only white-space runes removed at line ends (strip_structure / stripSvg_structure); framing by LF recovers any list of returned strings. strip_payload / stripSvg_payload: the executable statement the check evaluates on the real output (Spec.Strip.checkPayload: one line, white-space-free content equal) holds of the model for every input whose lines do not start, once trimmed, with a UTF-8 continuation byte (JoinSafe; implied by valid UTF-8: strip_content_utf8) and for SVG for every byte string; contentEq_invalid_utf8_counterexample shows the guard is needed (E2 80 LF 85 41 joins into U+2005) — Go strings from protobuf/JSON are valid UTF-8. The same predicates are evaluated on the real encoders' output for every payload and pass-through field.",
-    note=TB + "That every string the two encoders return passes through the flattening is established by the correspondence over all field kinds (and by the C01/C03 encoder models where built), not by a theorem over the full encoders.",
-    technique="Lean 4 proof (list induction over lines, trim decomposition) + model/implementation correspondence through the public encoders",
+    text="Lean theorems: the three flattening functions (stripLineBreaks, stripLineBreaksSvg, the return-site line-feed flattening) never output LF for any input (strip_no_lf, stripSvg_no_lf, singleLine_no_lf; Lemmas/StripOneLine.lean). FULL-ENCODER theorem encoders_frame: for every list of inbound messages and every list of outbound messages, whatever their string fields contain, no string returned by the encoder models encIn / encOut contains a line feed and the returned lists frame correctly (each string + LF, split at LF, recovers exactly the strings: Spec.Strip.framing); framing holds for any list of LF-free strings. The output of the payload flattening is, for every input, the in-order concatenation of the input's lines with only white-space runes removed at line ends (strip_structure / stripSvg_structure). strip_payload / stripSvg_payload: the executable statement the check evaluates on the real output (Spec.Strip.checkPayload: one line, white-space-free content equal) holds of the model for every input whose lines do not start, once trimmed, with a UTF-8 continuation byte (JoinSafe; implied by valid UTF-8: strip_content_utf8) and for SVG for every byte string; contentEq_invalid_utf8_counterexample shows the guard is needed (E2 80 LF 85 41 joins into U+2005) — Go strings from protobuf/JSON are valid UTF-8. topo_lines_content: the two topology lines the outbound encoder returns are the key + the flattened SVG / JSON and pass that payload check against the field. The same predicates are evaluated on the real encoders' output for every payload and pass-through field.",
+    note=TB + "That the Go encoders equal the models encIn / encOut (in particular that every returned string passes through the return-site flattening) rests on the correspondence of C01/C03/C07 over all field kinds.",
+    technique="Lean 4 proof (list induction over lines, trim decomposition, full encoder models) + model/implementation correspondence through the public encoders",
 )
